@@ -82,6 +82,17 @@ impl EchoScalar for uuid::Uuid {
         Sv::Uuid(self.hyphenated().to_string())
     }
 }
+/// floats are echoed as their IEEE bit pattern
+impl EchoScalar for f32 {
+    fn sv(&self) -> Sv {
+        Sv::Int(self.to_bits().to_string())
+    }
+}
+impl EchoScalar for f64 {
+    fn sv(&self) -> Sv {
+        Sv::Int(self.to_bits().to_string())
+    }
+}
 impl EchoScalar for char {
     fn sv(&self) -> Sv {
         Sv::Char(*self as u32)
@@ -488,6 +499,28 @@ async fn h_m_pqm(rqctx: RequestContext<Ctx>, p: Path<Tag>, q: Query<QTag>, _b: M
 }
 pub const CAP_SMALL: usize = 256;
 
+/// a query struct with one required field (f32 / f64)
+#[derive(Deserialize, JsonSchema)]
+pub struct QF<T> {
+    pub v: T,
+}
+async fn h_qf<T: EchoScalar + DeserializeOwned + JsonSchema + Send + Sync + 'static>(
+    rqctx: RequestContext<Ctx>,
+    q: Query<QF<T>>,
+) -> R {
+    let mut e = enter(&rqctx);
+    e.structs.push(vec![one("v", &q.into_inner().v)]);
+    Ok(HttpResponseOk(e))
+}
+async fn h_pf<T: EchoScalar + DeserializeOwned + JsonSchema + Send + Sync + 'static>(
+    rqctx: RequestContext<Ctx>,
+    p: Path<P1<T>>,
+) -> R {
+    let mut e = enter(&rqctx);
+    e.structs.push(vec![one("v", &p.into_inner().v)]);
+    Ok(HttpResponseOk(e))
+}
+
 // ---- a wide query struct and body endpoints with a large limit (large-scope slice) ----
 
 #[derive(Deserialize, JsonSchema)]
@@ -602,6 +635,10 @@ pub fn build_api() -> (ApiDescription<Ctx>, Ctx) {
         };
     }
     reg!("qwide", h_qwide, Method::GET, JSON, "/qwide");
+    reg!("p_f32", h_pf::<f32>, Method::GET, JSON, "/p/f32/{v}");
+    reg!("p_f64", h_pf::<f64>, Method::GET, JSON, "/p/f64/{v}");
+    reg!("qf_f32", h_qf::<f32>, Method::GET, JSON, "/qf/f32");
+    reg!("qf_f64", h_qf::<f64>, Method::GET, JSON, "/qf/f64");
     macro_rules! reg_big {
         ($op:literal, $h:expr, $m:expr, $ct:expr, $path:literal) => {
             api.register(
